@@ -31,8 +31,9 @@ impl KnownFindings {
             Err(_) => KnownFindings::default(),
         }
     }
+    /// exact match, or prefix match for a listed signature that ends in '*' (a finding that names a whole module)
     pub fn lookup(&self, prop: &str, sig: &str) -> Option<&Finding> {
-        self.findings.iter().find(|f| f.property == prop && f.signature == sig)
+        self.findings.iter().find(|f| f.property == prop && (f.signature == sig || f.signature.strip_suffix('*').map(|p| sig.starts_with(p)).unwrap_or(false)))
     }
     pub fn is_listed(&self, prop: &str, slug: &str) -> bool {
         let sig = format!("{}:{}", prop, slug);
